@@ -7,6 +7,7 @@ import AutosarVerif.Model.Load
 import AutosarVerif.Model.Serialize
 import AutosarVerif.Model.Step
 import AutosarVerif.Model.Iter
+import AutosarVerif.Model.Dup
 import Driver.Proto
 
 namespace AV.WDriver
@@ -74,6 +75,9 @@ def step (S : Spec) (V : Env) (validVer : Nat â†’ Bool) (rootAttrs : List (Nat Ã
     | some p, some x => some (sh (opCopy S V w p x none)) | _, _ => some (w, "bad-op")
   | ["copy", p, x, q] => match E p, E x, q.toNat? with
     | some p, some x, some q => some (sh (opCopy S V w p x (some q))) | _, _, _ => some (w, "bad-op")
+  | ["dup", m] => match M m with
+    | some k => if k < w.models.length then some (sh (opDup S V rootAttrs w k)) else some (w, "bad-op")
+    | none => some (w, "bad-op")
   | ["sort", x] => match E x with
     | some x => some (applyOpX S V rootAttrs w (.sort x)) | none => some (w, "bad-op")
   | ["sortm", m] => match M m with
